@@ -2,6 +2,7 @@ import Driver.Util
 import Driver.AggRetrieval
 import MlModel.Model.Agg.ThrHeap
 import MlModel.Model.Agg.CmStateHeap
+import MlModel.Model.Agg.HistHeap
 open Lean MlModel MlModel.Agg MlModel.Agg.Heap
 namespace Driver.AggObs
 
@@ -120,6 +121,19 @@ def cmStateObs : ObsClass SH.Cell SH.Batch where
     let f := fun (x : Json) => do (← x.getArr?).toList.mapM (·.getInt?)
     return ⟨← f a[0]!, ← f a[1]!, ← f a[2]!, ← f a[3]!⟩
 
+/-! ### Histogram -/
+
+open MlModel.Agg.Rolling in
+def histObs (edges : List Rat) : ObsClass HistH.Cell (List Rat) where
+  cls := HistH.cls edges
+  pub := fun (o : HistH.Obj) => [o.hist, o.edges]      -- acc.hist, acc.bin_edges
+  scalars := fun _ => []
+  addErr := fun _ _ _ => none
+  mergeErr := fun _ _ _ => none
+  cellJson := fun (c : List Rat) => Json.arr (c.map Driver.ratJson).toArray
+  fill := fun v (c : List Rat) => c.map fun _ => (v : Rat)
+  parseBatch := fun j => do (← Driver.getArr j "counts").toList.mapM Driver.AggRetrieval.ratOf
+
 def handle (j : Json) : Except String Json := do
   let cls ← Driver.getStr j "cls"
   let prog := (← Driver.getArr j "prog").toList
@@ -135,6 +149,9 @@ def handle (j : Json) : Except String Json := do
       pure (k, t)
     runObs (thrObs ts ms) prog
   | "cmstate" => runObs cmStateObs prog
+  | "hist" =>
+    let edges ← (← Driver.getArr j "edges").toList.mapM Driver.AggRetrieval.ratOf
+    runObs (histObs edges) prog
   | s => throw s!"unknown class {s}"
 
 end Driver.AggObs
